@@ -31,7 +31,50 @@ func (x *Exec) ufFloat(name string, args ...string) string {
 		sorts = append(sorts, fs)
 	}
 	x.S.DeclareFun(name, sorts, fs)
+	if x.te.FMode == FloatReal {
+		x.trigAxioms(name)
+	}
 	return App(name, args...)
+}
+
+const piReal = "(/ 884279719003555.0 281474976710656.0)" // math.Pi as the exact rational value of the float64 constant
+
+// trigAxioms: assumed facts about the mathematical functions (A-math-trig),
+// stated over the reals and included only when the symbol occurs.
+func (x *Exec) trigAxioms(name string) {
+	half := "(/ " + piReal + " 2.0)"
+	decl := func(n string, k int) {
+		var so []string
+		for i := 0; i < k; i++ {
+			so = append(so, "Real")
+		}
+		x.S.DeclareFun(n, so, "Real")
+	}
+	switch name {
+	case "fsin", "fcos":
+		decl("fsin", 1)
+		decl("fcos", 1)
+		x.S.Axiom("trig_pyth", []string{"fsin", "fcos"}, "(forall ((v Real)) (! (and (= (+ (* (fsin v) (fsin v)) (* (fcos v) (fcos v))) 1.0) (<= (- 1.0) (fsin v)) (<= (fsin v) 1.0) (<= (- 1.0) (fcos v)) (<= (fcos v) 1.0)) :pattern ((fsin v)) :pattern ((fcos v))))")
+		x.S.Axiom("trig_cospos", []string{"fcos"}, "(forall ((v Real)) (! (=> (and (< (- "+half+") v) (< v "+half+")) (> (fcos v) 0.0)) :pattern ((fcos v))))")
+		x.S.Axiom("trig_zero", []string{"fsin", "fcos"}, "(and (= (fsin 0.0) 0.0) (= (fcos 0.0) 1.0))")
+	case "fasin":
+		decl("fsin", 1)
+		decl("fasin", 1)
+		x.S.Axiom("trig_asin", []string{"fasin"}, "(forall ((v Real)) (! (=> (and (<= (- "+half+") v) (<= v "+half+")) (= (fasin (fsin v)) v)) :pattern ((fasin (fsin v)))))")
+		x.S.Axiom("trig_asin0", []string{"fasin"}, "(= (fasin 0.0) 0.0)")
+	case "ftan", "fatan":
+		decl("ftan", 1)
+		decl("fatan", 1)
+		x.S.Axiom("trig_atan", []string{"fatan", "ftan"}, "(forall ((v Real)) (! (=> (and (< (- "+half+") v) (< v "+half+")) (= (fatan (ftan v)) v)) :pattern ((fatan (ftan v)))))")
+		x.S.Axiom("trig_tanpos", []string{"ftan"}, "(forall ((v Real)) (! (=> (and (< 0.0 v) (< v "+half+")) (> (ftan v) 0.0)) :pattern ((ftan v))))")
+	case "fexp", "flog":
+		decl("fexp", 1)
+		decl("flog", 1)
+		x.S.Axiom("explog", []string{"fexp", "flog"}, "(forall ((v Real)) (! (and (= (flog (fexp v)) v) (> (fexp v) 0.0)) :pattern ((fexp v))))")
+		x.S.Axiom("logexp", []string{"fexp", "flog"}, "(forall ((v Real)) (! (=> (> v 0.0) (= (fexp (flog v)) v)) :pattern ((flog v))))")
+	case "fatan2":
+		decl("fatan2", 2)
+	}
 }
 
 // model intercepts calls to functions with an explicit (assumed) semantics.
